@@ -15,3 +15,8 @@ static void helper_mut(const char *p) { unlink(p); }
 static void helper_ro(const char *p) { (void) p; }
 void entry_ro(const char *p) { helper_ro(p); }
 void entry_mut(const char *p) { helper_mut(p); }
+
+/* end-indexed strings (C08 R3b) */
+extern unsigned long strlen(const char *);
+void strip_bad(char *s) { unsigned long n = strlen(s); while (s[n - 1] == '/') { --n; s[n] = 0; } }
+void strip_ok(char *s) { unsigned long n = strlen(s); while (n > 0 && s[n - 1] == '/') { --n; s[n] = 0; } }
